@@ -61,7 +61,10 @@ void pbt_property(Ctx &c) {
     if (nt) c.nontrivial();
 
     Runner run(c, sc);
-    run.create(); run.alloc();
+    run.create();
+    // a third of the cases: the vnacal_t already holds (and has lost) unrelated parameters, so the scenario's handles are sparse
+    if (c.chance(1, 3)) { int nfill = (int)c.range(6, 40); run.make_fillers(nfill, c); c.label("sparse-handles"); }
+    run.alloc();
     if (c.boolean()) { int rc = vnacal_new_set_z0(run.vnp, mkc(c.real(10, 100), c.real(-20, 20))); PBT_CHECK(c, rc == 0, "C01.set_z0", "vnacal_new_set_z0 failed"); }
     int idx = 0;
     for (auto &st : sc.stds) {
